@@ -15,6 +15,14 @@ open OutEv OutOps JUnit
 
 structure DState where
   reg : Reg := {}
+  cli : Bool := false        -- `cli`: the run goes through CommandLineTestRunner::runAllTestsMain (same files; its return value is observed)
+
+/-- `CommandLineTestRunner::runAllTests`' return value: the failures of all repetitions, or (when there are none) the number of
+    repetitions whose `TestResult::isFailure()` holds because nothing ran -/
+def cliExit (evs : List Ev) : Nat :=
+  let sums := evs.filterMap fun e => match e with | .testsEnded s => some s | _ => none
+  let f := (sums.map fun s => s.failureCount).foldl (· + ·) 0
+  if f ≠ 0 then f else (sums.filter fun s => s.runCount + s.ignoredCount == 0).length
 
 def timestampOf (obs : List (List String)) : Text.Bytes :=
   match obs.filterMap (fun l => match l with | ["timestamp", h] => Proto.unhex? h | _ => none) with
@@ -25,12 +33,17 @@ def modelStep (d : DState) (op : List String) (obs : List (List String)) : DStat
   match op with
   | ["run"] =>
     let ts := timestampOf obs
-    let fs := JUnit.files d.reg.package ts (runRepeated d.reg.repeats d.reg.filter d.reg.scripts)
-    (d, ("timestamp " ++ Proto.hex ts) :: fs.map fun f => "file " ++ Proto.hex f.name ++ " " ++ Proto.hex f.bytes)
+    let evs := runRepeated d.reg.repeats d.reg.filter d.reg.scripts
+    let fs := JUnit.files d.reg.package ts evs
+    (d, (("timestamp " ++ Proto.hex ts) :: fs.map fun f => "file " ++ Proto.hex f.name ++ " " ++ Proto.hex f.bytes) ++
+        (if d.cli then [s!"cli-exit {cliExit evs}"] else []))
   | ["skip"] => (d, [])
+  | ["cli"] => ({ d with cli := true }, [])
+  | ["realtime"] => (d, [])          -- the platform's own time string: still an environment input read from `timestamp`
+  | ["timestr", h] => (d, if (Proto.unhex? h).isSome then [] else ["bad-op"])
   | w =>
     match applyOp d.reg w with
-    | some r => ({ reg := r }, [])
+    | some r => ({ d with reg := r }, [])
     | none => (d, ["bad-op"])
 
 /-! ## specification oracle -/
